@@ -11,11 +11,11 @@ D = "config.json programs/tables translated to SMT (z3 reals), walk model valida
 
 CHECKS = {
     "C01": ("K", "model_checking",
-            "line splitting: Session::set_text on every text of <= 4 lines with symbolic line contents and every LF/CRLF separator pattern (also mixed) stores exactly one part per line (MIR; Regex::split modelled for the constant pattern \\r\\n|\\n only); execute_session's loop: for every line count 1..4 and every per-line outcome exactly one slot per line, status true (CBMC); stages C-E (token glue, parser ladder, interpreter) executed symbolically from MIR on every token list of length <= 4 (quick) / 5 (thorough) over {number, + - * / ( )} and over the same alphabet plus an unabsorbed word and a time-zone name: no satisfiable panic path, every loop and recursion terminates (a loop the executor cannot leave is replayed natively; a run that does not return is the violation); panic-freedom of the rule functions and DataItem kernels is decided by the engine-M parts of C05/C06/C09/C10/C11/C13/C14 (every panic path of the translated functions is a reachability query)",
+            "line splitting: Session::set_text on every text of <= 4 lines with symbolic line contents and every LF/CRLF separator pattern (also mixed) stores exactly one part per line (MIR; Regex::split modelled for the constant pattern \\r\\n|\\n only); execute_session's loop: for every line count 1..4 and every per-line outcome exactly one slot per line, status true (CBMC); stages C-E (token glue, parser ladder, interpreter) executed symbolically from MIR on every token list of length <= 4 (quick) / 5 (thorough) over {number, + - * / ( )} and over the same alphabet plus an unabsorbed word and a time-zone name: no satisfiable panic path, every loop and recursion terminates (a loop the executor cannot leave is replayed natively; a run that does not return is the violation); the number / percent / money literal tokenisers on every text their number group can match (digit runs joined by ',' '.' in any mixture; radix literals up to 17 / 22 / 64 digits) and '<date> at N' for every number: no panic; panic-freedom of the rule functions and DataItem kernels is decided by the engine-M parts of C05/C06/C09/C10/C11/C13/C14 (every panic path of the translated functions is a reachability query)",
             "stage A (regex tokenisers, load_from_json) is outside the claim; the regex engine itself is a contract model in the line-splitting part; execute_text is a nondeterministic stub inside the loop harness; token lists are bounded in length and alphabet",
             "solver-based: CBMC bounded model checking + z3 over MIR-derived path conditions"),
     "C02": ("K+M", "model_checking",
-            "the REAL token glue, parser ladder and interpreter, translated from MIR, on every well-formed token list of length <= 6, every token list of length <= 4 and a seeded sample of lengths 7-8 (quick) / every token list of length <= 8 (thorough) over {number, + - * / ( )}: every well-formed expression evaluates to the value given by precedence, left associativity, parentheses, sign prefixes, juxtaposition = '+' and x/0 = 0 for ALL real operand values (shapes enumerated exhaustively, values symbolic, z3); plus NumberItem::calculate on all f64 pairs (CBMC)",
+            "the REAL token glue, parser ladder and interpreter, translated from MIR, on every well-formed token list of length <= 6, every token list of length <= 4 and a seeded sample of lengths 7-8 (quick) / every token list of length <= 8 (thorough) over {number, + - * / ( )}: parentheses nested 9 / 17 / 33 / 40 deep (quick; every depth 1..48, 64, 100 thorough) around x + y times z evaluate to (x + y) z; every well-formed expression evaluates to the value given by precedence, left associativity, parentheses, sign prefixes, juxtaposition = '+' and x/0 = 0 for ALL real operand values (shapes enumerated exhaustively, values symbolic, z3); plus NumberItem::calculate on all f64 pairs (CBMC)",
             "literal spelling / spacing / k-M-G suffixes are stage A (regex) and outside; f64 rounding of individual operations outside (real relaxation); expression length bounded",
             "solver-based: z3 over SMT generated from the MIR of the real parser/interpreter + CBMC"),
     "C03": ("M", "translation_validation",
@@ -23,7 +23,7 @@ CHECKS = {
             "names are Text tokens (case folding and literal spelling are stage A); values are numbers; program length and name pool bounded",
             "solver-based: z3 over SMT generated from the MIR, program shapes enumerated exhaustively"),
     "C04": ("K+M", "model_checking",
-            "session re-use: set_text puts the cursor back and stores exactly the lines of the new text, one part per line for every LF/CRLF separator pattern of <= 4 lines (z3/path enumeration over its MIR); from that state execute_session returns exactly line_count slots for every n <= 4 and every per-line outcome (CBMC); calculator immutability: neither applying nor declining a rule writes into the calculator's own pattern tokens (rule_tokinizer from MIR, rule decision symbolic); execute() builds a fresh session (variables never leak: C03's programs run on explicit sessions)",
+            "session re-use: set_text puts the cursor back and stores exactly the lines of the new text, one part per line for every LF/CRLF separator pattern of <= 4 lines (z3/path enumeration over its MIR); from that state execute_session returns exactly line_count slots for every n <= 4 and every per-line outcome (CBMC); calculator immutability: neither applying nor declining a rule writes into the calculator's own pattern tokens (rule_tokinizer from MIR, rule decision symbolic); a re-used session keeps its variables: every straight-line program of <= 3 lines with a failing line (also a failing re-assignment) leaves all bindings as they were; converting a quantity writes nothing into the unit descriptions the configuration owns (calculate_unit from MIR with the program evaluation stubbed), so a later conversion cannot depend on an earlier one; execute() builds a fresh session",
             "Regex::split is a contract model for the constant line-separator pattern; immutability is decided for the rule-rewriting stage (the only stage that holds references into the configuration's token objects) with one API rule",
             "solver-based: MIR symbolic execution + CBMC"),
     "C05": ("M+K", "translation_validation",
@@ -35,7 +35,7 @@ CHECKS = {
             "rate table lookups are uninterpreted functions of the currency; literal spellings are outside; f64 rounding outside",
             "solver-based: z3 over SMT generated from the MIR of the real functions"),
     "C18": ("M", "translation_validation",
-            "registration bookkeeping: every sequence of <= 4 (quick) / 5 (thorough) calls of add_rule / delete_rule / add_dynamic_type / add_dynamic_type_item with three rule objects whose names are symbolic strings, two languages (one unknown), one family, two indices: return values and resulting rule order / family tables equal a reference list model (add fails only for an unknown language, delete removes the first rule of that name, duplicates rejected without change); API-rule effect: a match calls the rule with fields bound by name and replaces exactly the matched span, a declining rule leaves the line unchanged",
+            "registration bookkeeping: every sequence of <= 4 (quick) / 5 (thorough) calls of add_rule / delete_rule / add_dynamic_type / add_dynamic_type_item with three rule objects whose names are symbolic strings, two languages (one unknown), one family, two indices: return values and resulting rule order / family tables equal a reference list model (add fails only for an unknown language, delete removes the first rule of that name, duplicates rejected without change); API-rule effect: a match calls the rule with fields bound by name and replaces exactly the matched span, a declining rule leaves the line unchanged; a rule with two patterns that declines the match of its first pattern still gets the match of its second; a user-defined unit is recognised in a line (dynamic_type_tokinizer) for a number literal and equally for a variable holding the number, without writing into the unit descriptions",
             "pattern tokenisation of rule strings (add_rule runs the regex tokeniser on its patterns) and user-family conversion arithmetic are outside: rules are registered with empty pattern lists in the bookkeeping spec and with a hand-built pattern in the effect spec",
             "solver-based: z3 over SMT generated from the MIR, call sequences enumerated exhaustively"),
     "C07": ("M", "translation_validation",
@@ -63,11 +63,11 @@ CHECKS = {
             "f64 rounding along the chain and separator-dependent re-tokenisation (C08) are outside",
             "solver-based: z3 over the linear programs of config.json + native translator validation"),
     "C13": ("M+K", "translation_validation",
-            "NumberItem::print hands the {:#b}/{:#o}/{:#X} formatter exactly N for every integer 0 <= N <= 2^53; number_type_convert rounds half away from zero and sets the named type for all five keywords; NumberItem::calculate keeps the left NumberType (CBMC, all f64); rule wiring: the property's phrases as token lines through rule_tokinizer with config.json's own rule table (dumped natively per run): each phrase is taken by exactly its rule function with the fields bound by name to the right tokens",
+            "NumberItem::print hands the {:#b}/{:#o}/{:#X} formatter exactly N for every integer 0 <= N <= 2^53; number_type_convert rounds half away from zero and sets the named type for all five keywords; NumberItem::calculate keeps the left NumberType (CBMC, all f64); the printed integer is N also when every float operation of the printing code carries a relative error <= 2^-53 (no rounding helper may move an exactly representable integer); 0x / 0o / 0b literals of up to 17 / 22 / 64 symbolic digits denote the integer written, longer ones are skipped without a panic; rule wiring: the property's phrases as token lines through rule_tokinizer with config.json's own rule table (dumped natively per run): each phrase is taken by exactly its rule function with the fields bound by name to the right tokens",
             "radix literal reading (from_str_radix inside the regex tokeniser) is outside",
             "solver-based: z3 over MIR + CBMC"),
     "C14": ("M", "translation_validation",
-            "from_unixtime / to_unixtime are mutually inverse for all timestamps of years 1..9999, '<date> as unix' is midnight UTC, the Raw print shows every digit of every such timestamp; rule wiring: the property's phrases as token lines through rule_tokinizer with config.json's own rule table (dumped natively per run): each phrase is taken by exactly its rule function with the fields bound by name to the right tokens",
+            "from_unixtime / to_unixtime are mutually inverse for all timestamps of years 1..9999, '<date> as unix' is midnight UTC, the Raw print shows every digit of every such timestamp; a date-time (time, date, number, money, duration) held by a variable is read back by the field getters as exactly the stored value and zone, so 'a = N to ZONE', 'a as unix' returns N; the requested GMT+-h:mm zone denotes sign * (60 h + mm) minutes; rule wiring: the property's phrases as token lines through rule_tokinizer with config.json's own rule table (dumped natively per run): each phrase is taken by exactly its rule function with the fields bound by name to the right tokens",
             "chrono's from_timestamp/timestamp/and_hms are modelled on (day number, second of day); DateTimeItem::print and at_date spellings are outside",
             "solver-based: z3 over SMT generated from the MIR with chrono models"),
 }
